@@ -90,6 +90,11 @@ let handle_json op args =
     (match WktJsonModel.unmarshal_duration (bytes_of_hex b) with
      | WktJsonModel.UOk (s, n) -> ["ok"; hex_of_z s; hex_of_z n]
      | WktJsonModel.UErr c -> ["e" ^ string_of_int (int_of_z c)])
+  | "mts", [s; n] -> mres (TsJsonModel.marshal_timestamp (z_of_hex s) (z_of_hex n))
+  | "uts", [b] ->
+    (match TsJsonModel.unmarshal_timestamp (bytes_of_hex b) with
+     | WktJsonModel.UOk (s, n) -> ["ok"; hex_of_z s; hex_of_z n]
+     | WktJsonModel.UErr c -> ["e" ^ string_of_int (int_of_z c)])
   | "mfm", ps -> mres (WktJsonModel.marshal_fieldmask (paths_of ps))
   | "ufm", [b] ->
     (match WktJsonModel.unmarshal_fieldmask (bytes_of_hex b) with
